@@ -169,7 +169,7 @@ def extract(repo=C.REPO, harness=None):
                 plur = C.unhex(v)
         base = rows[1]
         for p, row in rows.items():
-            exp = {k: c * p for k, c in base.items()}
+            exp = {k: c * p for k, c in base.items() if c * p != 0}
             if row != exp:
                 raise ExtractError(f"unit {i}: powers({p}) = {row} is not {p} x powers(1) = {base}")
         order = ["KiloGram", "Candela", "Meter", "Second", "Ampere", "Kelvin", "Mole", "Byte"]
